@@ -309,6 +309,7 @@ func main() {
 	e2eCheck := flag.String("e2echeck", "", "evaluate the plays under this directory")
 	e2eImm := flag.Bool("e2e-immediate", false, "every SIGHUP handler exits right after its last line")
 	e2eSmall := flag.Bool("e2e-small", false, "plays with few lines")
+	e2eBurst := flag.Int("e2e-burst", 0, "the first actor's SIGHUP handler prints this many matching lines at once")
 	replay := flag.String("replay", "", "replay file written by the check (in-process cases)")
 	flag.Parse()
 	if *replay != "" {
@@ -317,7 +318,7 @@ func main() {
 	}
 	rng := vh.Rng(*seed)
 	if *e2e != "" {
-		writeE2E(rng, *e2e, *e2eN, *e2eImm, *e2eSmall)
+		writeE2E(rng, *e2e, *e2eN, *e2eImm, *e2eSmall, *e2eBurst)
 		return
 	}
 	if *e2eCheck != "" {
